@@ -250,6 +250,9 @@ def run(ctx):
            'the Literal explanation compares the pith with every literal by equality', ok,
            f'{[norm(c)[:100] for c in anys]}')
 
+    # ---- R7 ----------------------------------------------------------------------
+    _licensed_operations(ctx, rows)
+
     # ---- R4 ----------------------------------------------------------------------
     _violation_selection(ctx, G, F)
 
@@ -312,6 +315,71 @@ def run(ctx):
                        'reviewed function and guard)', key in T3 and seen_sites[key] == 1,
                        f'unreviewed raise of {nm} under `{" and ".join(_guards(node, fn))[:160]}`')
     ctx.floor('C03.R6', n, 8, 'private raise sites')
+
+
+def _expr_guards(node, stop):
+    """Conditions under which ``node`` is evaluated inside its statement, from short-circuit
+    operators: earlier operands of an enclosing ``and`` hold, earlier operands of an ``or`` do not."""
+    out = []
+    child, p = node, getattr(node, '_parent', None)
+    while p is not None and p is not stop and not isinstance(p, ast.stmt):
+        if isinstance(p, ast.BoolOp) and child in p.values:
+            for v in p.values[:p.values.index(child)]:
+                out.append(norm(v) if isinstance(p.op, ast.And) else f'not ({norm(v)})')
+        elif isinstance(p, ast.IfExp):
+            if child is p.body:
+                out.append(norm(p.test))
+            elif child is p.orelse:
+                out.append(f'not ({norm(p.test)})')
+        child, p = p, getattr(p, '_parent', None)
+    return out
+
+
+def _positive(g: str, what: str) -> bool:
+    g = g.strip()
+    while g.startswith('not (not ') and g.endswith(')'):
+        g = g[len('not (not '):-1].strip()
+        if g.startswith('(') and g.endswith(')'):
+            g = g[1:-1]
+    return g == what or g.startswith(what + ' and ') or (' and ' + what) in g and not g.startswith('not ')
+
+
+def _licensed_operations(ctx, rows, RULE='C03.R7'):
+    ctx.rule(RULE, 'the explanation path applies to the checked object only operations the generated check '
+             'established it supports: the 1-argument container finder is reached for the quasi-iterable signs '
+             '(Container / Iterable / Reversible, derived from the dispatch of R1), whose objects the generated '
+             'code touches only under isinstance(obj, Collection); so every len / iter / next / enumerate / '
+             'subscript of cause.pith in that finder must be dominated (statement guards and short-circuit order) '
+             'by isinstance(cause.pith, Collection) — otherwise a rejection elsewhere in the object is reported as '
+             'a bare TypeError instead of the configured violation')
+    m = ctx.repo.mod('beartype._check.error._pep.pep484585.errpep484585container')
+    fn = m.defs.get('find_cause_pep484585_container_args_1')
+    ctx.require(fn is not None, 'anchor vanished: find_cause_pep484585_container_args_1')
+    quasi_here = sorted(r['sign'] for r in rows if r.get('finder') == 'find_cause_pep484585_container_args_1'
+                        and FAMILY.get(r['sign']) == 'quasi' and r['subscripted'])
+    ctx.require(quasi_here, 'no quasi-iterable sign is dispatched to find_cause_pep484585_container_args_1 any more: R7 needs review')
+    n = 0
+    from .c02 import _guards as stmt_guards
+    for x in ast.walk(fn):
+        site = None
+        if isinstance(x, ast.Call) and dotted(x.func) in ('len', 'iter', 'next', 'enumerate', 'reversed', 'tuple', 'list') \
+                and x.args and norm(x.args[0]) == 'cause.pith':
+            site = x
+        elif isinstance(x, ast.Subscript) and norm(x.value) == 'cause.pith':
+            site = x
+        if site is None:
+            continue
+        n += 1
+        st = site
+        while not isinstance(st, ast.stmt):
+            st = st._parent
+        guards = stmt_guards(st, fn) + _expr_guards(site, st)
+        ok = any(_positive(g, 'isinstance(cause.pith, Collection)') for g in guards)
+        ctx.ob(RULE, f'licensed:{fn.name}:{norm(site)}', m.where(site),
+               f'`{norm(site)}` is evaluated only for objects established to be Collections', ok,
+               f'evaluated under {guards or "no guard"}; signs reaching this finder include {quasi_here}: a generator '
+               f'matched against Iterable[T] next to the real culprit makes the explanation raise TypeError')
+    ctx.floor(RULE, n, 1, 'operations on cause.pith in the container finder')
 
 
 def _violation_selection(ctx, G, F):
